@@ -112,6 +112,17 @@ CHECKS.update({
             "multicast destinations are checked never to be CON.",
             TB + "Don't-care cells (CON with reserved/signalling code; CON requests received on multicast) are excluded from the table comparison but still checked for invariants.",
             "DESIGN.md 6/C10"),
+    "C15": ("model_checking", E1 + " (frame sequences x chunkings) against the independent RFC 8323 framer; differential over chunkings",
+            "A real TcpConnection (server role; client role with pending requests) on a real TCPServer/TCPClient pool, TokenManager and "
+            "Context over a fake asyncio transport receives every sequence up to length 2-3 over a 22-frame alphabet (CSM variants, "
+            "requests with length field 0/12/13/268/269, unknown-token response, Ping/Pong/Release/Abort, Empty, unknown signalling code, "
+            "oversized frame, TKL 9, three unparsable-option shapes) under every chunking of a family (all compositions for short streams; "
+            "whole, bytewise, fixed sizes, every single cut, strided cut pairs otherwise). Dispatch list, signalling writes (own CSM, "
+            "Pong with the Ping's token, Abort), closed flag and reported errors must equal the reference processing and be identical for "
+            "all chunkings; nothing may escape data_received; written bytes must re-frame exactly; serialisation is compared at the "
+            "13/269/65805 boundaries.",
+            TB + "Responses produced by handler tasks are compared as a subsequence (their timing relative to later frames is not framing).",
+            "DESIGN.md 6/C15"),
     "C17": ("model_checking", E1 + "; " + E3,
             "Every configuration of a closed family (all sets of <= 3 resources at paths of length <= 3 over {a,b,''}, 0-2 nested sites "
             "incl. a second level and prefix-overlapping pairs, path-capable leaves, resources with rt/if/ct attributes and a hidden one) "
